@@ -1,7 +1,7 @@
 #!/usr/bin/env python3
 """replay.py -- replay a CBMC counterexample against the real code (g++ -fsanitize=address,undefined build of
 /repo's working tree, driven by the scripted deviates from the trace)."""
-import os, sys, json, re
+import os, sys, json, re, subprocess
 sys.path.insert(0, os.path.dirname(os.path.abspath(__file__)))
 import native
 
@@ -180,6 +180,19 @@ def judge(prop, task, rc, out, err, conf=None):
 
 def main(argv):
     rec = json.load(open(argv[0]))
+    w = (rec.get('native_replay') or {}).get('witness')
+    if (rec.get('meta') or {}).get('what') == 'rel':
+        # relational obligation: re-run the differential witness (real routine vs compiled reference) if one was found
+        if not w:
+            print(json.dumps({'confirmed': False, 'obligation': rec.get('obligation'), 'why': 'no concrete failing input was found for this relational obligation; the file carries the verifier output',
+                              'cbmc_cmd': rec.get('cbmc_cmd')}, indent=1))
+            return 0
+        import diffref
+        exe, n = diffref.build()
+        p = subprocess.run([exe, 'show', w['routine'], str(w['seed']), str(w['level'])], capture_output=True, text=True)
+        print(p.stdout)
+        print(json.dumps({'confirmed': p.returncode == 1, 'obligation': rec.get('obligation'), 'witness': {k: w[k] for k in ('routine', 'level', 'seed')}}, indent=1))
+        return 1 if p.returncode == 1 else 0
     r = replay(rec['property'], rec['meta'], rec)
     print(json.dumps(r, indent=1)[:6000])
     return 1 if r.get('confirmed') else 0
